@@ -225,6 +225,9 @@ func check14(c *Case, o *Obs, rec Rec) (vs []viol, inconclusive string) {
 	if c.Target != "" {
 		pc += "@" + c.Target
 	}
+	if c.Opt != "" {
+		pc += "[" + c.Opt + "]"
+	}
 	add := func(obs, cls, what string) {
 		vs = append(vs, viol{pc + ":" + obs + ":" + cls, what})
 	}
@@ -272,6 +275,23 @@ func check14(c *Case, o *Obs, rec Rec) (vs []viol, inconclusive string) {
 			}
 			if !sameVals(gb, h.Vals) {
 				add("incoming-value", h.valueClass(), fmt.Sprintf("request header %+q sent as %+q reached the handler as %s, want %s", h.Name, h.wire(), showVals(gb), showVals(h.Vals)))
+			}
+		}
+		if strings.Contains(c.Opt, "icept") && c.Method == "Echo" && c.Target == "" {
+			// a pass-through unary interceptor sees the same incoming metadata
+			if !rec.ISeen {
+				add("interceptor-not-invoked", "unary", "the unary interceptor of the mux was not invoked")
+			}
+			for _, h := range c.ReqHdr {
+				got := rec.IMD[strings.ToLower(h.Name)]
+				gb := make([][]byte, len(got))
+				for i, v := range got {
+					gb[i] = []byte(v)
+				}
+				if rec.ISeen && !sameVals(gb, h.Vals) {
+					add("incoming-value-at-interceptor", h.valueClass(), fmt.Sprintf("request header %+q reached the unary interceptor as %s, want %s", h.Name, showVals(gb), showVals(h.Vals)))
+					break
+				}
 			}
 		}
 		strictTrailerFrame(c, o, add)
@@ -341,6 +361,9 @@ func check14(c *Case, o *Obs, rec Rec) (vs []viol, inconclusive string) {
 	// A gRPC-web body whose framing is broken (C05's finding for the text
 	// mode) hides the trailer frame: status and trailers are unobservable.
 	blind := web && o.WebErr != ""
+	if blind {
+		add("trailer-frame-incomplete", "body-framing", fmt.Sprintf("the gRPC-web body does not decode completely (%s; %d replies decoded, trailer frame seen: %v): status and trailer metadata are lost", o.WebErr, o.Replies, o.HasStatus))
+	}
 	strictTrailerFrame(c, o, add)
 
 	// 2. the real outcome is unchanged
@@ -672,6 +695,7 @@ type c14Runner struct {
 	env    *Env
 	rng    *rand.Rand
 	target string      // "" | "proxy": target of the cases being generated
+	opt    string      // mux options of the incoming cases being generated
 	hop    [][2]string // hop-by-hop headers added to the incoming cases being generated
 }
 
@@ -715,7 +739,7 @@ func (g *c14Runner) exec(c *Case) {
 				r.Count("request_header_values_checked", len(h.Vals))
 			}
 			for cl := range classes {
-				r.Distinct(fmt.Sprintf("in/%s%s/%s/%s/%s/hop=%d", c.Target+":", protoFamily(c.Proto), c.Codec, c.Method, cl, len(c.Hop)))
+				r.Distinct(fmt.Sprintf("in/%s%s/%s/%s/%s/hop=%d", c.Target+":"+c.Opt+":", protoFamily(c.Proto), c.Codec, c.Method, cl, len(c.Hop)))
 			}
 		} else {
 			r.Count("response_header_keys_checked", len(c.Script.Hdr))
@@ -762,7 +786,7 @@ func (g *c14Runner) inCase(proto, method string, hdrs []HdrSpec, class string) {
 		method, codec = "Bidi", "json"
 	}
 	c := &Case{Kind: "C14in", Proto: proto, Codec: codec, Method: method, ReqHdr: hdrs, Class: class, Target: g.target,
-		Script: Script{Replies: 1}, Hop: g.hop}
+		Script: Script{Replies: 1}, Hop: g.hop, Opt: g.opt}
 	c.Gzip = gzipCapable(proto) && g.rng.Intn(3) == 0
 	g.exec(c)
 }
@@ -926,6 +950,33 @@ func RunC14(r *mon.Run) {
 		}
 	}
 	g.target = ""
+	// the same classes with mux options that must not change what a handler
+	// sees: a no-op stats handler, pass-through interceptors, both
+	for _, g.opt = range []string{"stats", "icept", "stats+icept"} {
+		for _, g.target = range []string{"", "proxy"} {
+			for _, p := range inProtos {
+				g.binSweep(p.proto, p.wide, short[:40], "bin-len0-1")
+				for i := 0; i < r.Pick(6, 60); i++ {
+					used := map[string]bool{}
+					var hdrs []HdrSpec
+					for k, nk := 0, 1+rng.Intn(4); k < nk; k++ {
+						bin := rng.Intn(3) == 0
+						h := HdrSpec{Name: genReqName(rng, g.nameMode(p.wide), bin, used), Padded: bin && p.wide && rng.Intn(2) == 0}
+						for j, nv := 0, 1+rng.Intn(3); j < nv; j++ {
+							if bin {
+								h.Vals = append(h.Vals, genBinValue(rng))
+							} else {
+								h.Vals = append(h.Vals, genASCIIValue(rng))
+							}
+						}
+						hdrs = append(hdrs, h)
+					}
+					g.inCase(p.proto, []string{"Echo", "Echo", "SS"}[i%3], hdrs, "random")
+				}
+			}
+		}
+	}
+	g.target, g.opt = "", ""
 
 	// ---------------- outgoing
 	type outVar struct {
@@ -1141,6 +1192,30 @@ func RunC14(r *mon.Run) {
 							}
 							g.exec(c)
 						}
+					}
+				}
+			}
+		}
+	}
+
+	// gRPC-web-text with a body: every trailer block length (trailer value
+	// length 1..12 x status message length 0..2): the announced frame length is
+	// delivered and the base64 stream decodes completely
+	for _, p := range []string{"grpcweb-text", "grpcweb-text-sock", "grpcweb"} {
+		for _, target := range []string{"", "proxy"} {
+			if target == "proxy" && p != "grpcweb-text" {
+				continue
+			}
+			for _, replies := range []int{1, 2} {
+				for l := 1; l <= 12; l++ {
+					for ml := -1; ml <= 2; ml++ {
+						c := &Case{Kind: "C14out", Proto: p, Codec: "proto", Method: "SS", Class: "trailer-length-sweep", Target: target,
+							Script: Script{Code: 5, Msg: repeatTo("m", ml), Replies: replies,
+								Trl: []KV{{K: "x-len", V: [][]byte{[]byte(repeatTo("v", l))}}}}}
+						if ml < 0 {
+							c.Script.Code, c.Script.Msg = 0, "metadata case"
+						}
+						g.exec(c)
 					}
 				}
 			}
